@@ -167,6 +167,15 @@ pub mod vfs {
                 r is Ok ==> final(self).pos@ == data@.len() && final(self).pending@ == Some(data@),
                 r is Err ==> final(self).pending@ is None,
         { unimplemented!() }
+        // AsyncWriteExt::write: ONE write call - it takes a prefix of the data (how much is up to the runtime) and says how much
+        #[verifier::external_body]
+        pub fn write(&mut self, data: &[u8], Tracked(w): Tracked<&mut World>) -> (r: Result<usize, IoError>)
+            requires old(self).pos@ == 0, old(self).pending@ is None, old(w).fs.files.contains_key(old(self).path@)
+            ensures
+                final(self).path == old(self).path, *final(w) == *old(w),
+                r matches Ok(n) ==> n <= data@.len() && final(self).pos@ == n && final(self).pending@ == Some(data@.take(n as int)),
+                r is Err ==> final(self).pending@ is None,
+        { unimplemented!() }
         #[verifier::external_body]
         pub fn read_to_end(&mut self, buf: &mut Vec<u8>, Tracked(w): Tracked<&mut World>) -> (r: Result<usize, IoError>)
             ensures *final(w) == *old(w), final(self).path == old(self).path,
